@@ -6,9 +6,14 @@
 From Coq Require Extraction.
 From Coq Require Import ExtrOcamlBasic.
 From LC.Cont Require SetImpl Heap.
+From LC.CP Require Lexer LexSpec.
+From LC.Base Require Utf8.
+From LC.V2 Require Tok TokTables.
 
 Extraction Blacklist List String Int.
 
 Separate Extraction
   SetImpl.run SetImpl.step
-  Heap.run Heap.empty Heap.lookup Heap.arr Heap.idx.
+  Heap.run Heap.empty Heap.lookup Heap.arr Heap.idx
+  Lexer.parse Lexer.original Lexer.repaired Lexer.chunks LexSpec.spec_parse LexSpec.lang_wf
+  Tok.tokenize_whole Tok.tokenize_runes TokTables.mk_tables Utf8.decode_all Utf8.encode_all.
